@@ -120,7 +120,7 @@ PROPS["C03"] = {
 
 PROPS["C18"] = {
     "level": "other",
-    "rules": [p_plan.sync, p_plan.plan_mono, p_modes.dom_mode, p_plan.prov_plan, p_modes.fld_enc, p_b256.b256_sync],
+    "rules": [p_plan.sync, p_plan.plan_mono, p_modes.dom_mode, p_plan.prov_plan, p_modes.fld_enc, p_b256.b256_sync, p_plan.cost_write],
     "explanation": "Clause-level claim. The agreement between the planner's end-of-data prices and the encoders' handle_end behaviour "
                    "(and hence `the latches in the output are exactly the plan's modes` and `never a larger symbol than predicted`) is "
                    "arithmetic in two independently written state machines and is NOT decided (known: an EDIFACT run followed by exactly "
@@ -212,7 +212,7 @@ PROPS["C11"] = {
 
 PROPS["C10"] = {
     "level": "other",
-    "rules": [p_symbols.capacity_info, p_wire.gate_hint, p_wire.prov_sym, p_symbols.ord_rule, p_symbols.prov_filter],
+    "rules": [p_symbols.capacity_info, p_wire.gate_hint, p_wire.prov_sym, p_symbols.ord_rule, p_symbols.prov_filter, p_plan.cost_write, p_b256.b256_sync],
     "explanation": "Clause-level claim (gates and tie-break only). Minimality itself quantifies over every alternative legal encoding of "
                    "every input; its truth lives in the arithmetic of six cost models and their agreement with six encoders and is NOT "
                    "decided (known: ABCDEFGH12345678 gets a 16-codeword symbol where ASCII needs 12 - the EDIFACT four-final-digits "
